@@ -34,6 +34,7 @@ bb6a35c+c4d33bf C08 C08.reposition
 a084387 C20 C20.result
 bb6a35c C08 C08.position
 c15ed5e C08 C08.reset
+8c82aca C10 C10.direction
 LIST
 git -C /repo worktree remove --force $WT
 rm -rf /tmp/fixcheck-ev
